@@ -334,6 +334,58 @@ Proof.
   - intros _ _. cbn. discriminate.
 Qed.
 
+(* ---- Reset: a fresh array holding the begin marker; nothing live can share it ---- *)
+Lemma reset_facts grow h env penv aenv :
+  HInv h env penv aenv ->
+  let '(h', s') := ctx_reset grow h in
+  preserves h h' env /\
+  slice_ok h' {| v_ctx := Some s'; v_live := true; v_own := true |} begin_marker /\
+  (forall y, y < length env -> v_live (get env y) = true ->
+      compat {| v_ctx := Some s'; v_live := true; v_own := true |} (get env y) /\
+      compat (get env y) {| v_ctx := Some s'; v_live := true; v_own := true |}).
+Proof.
+  intros I. unfold ctx_reset.
+  pose proof (logger_with_ok grow h _ None eq_refl) as LW.
+  pose proof (logger_with_off grow h None Logic.I) as LO. pose proof (logger_with_len grow h None) as LL.
+  destruct (logger_with grow h None) as [[h' s'] ws]. cbn [fst snd] in *.
+  destruct LW as [Fv Fw Fl Fin Fws Ffr].
+  assert (Hfresh : length h <= arr s').
+  { destruct (Fws _ Fin) as [_ [C|C]]; [discriminate|exact C]. }
+  split; [|split].
+  - intros x s Hx Hl E W. assert (A : array h' (arr s) = array h (arr s)).
+    { apply Ffr; [apply W|]. intros Hin. destruct (Fws _ Hin) as [_ [C|C]]; [discriminate|]. destruct W as [W1 _]. lia. }
+    split; [apply view_frame; [apply W|exact A]|].
+    destruct W as [W1 [W2 W3]]. unfold wf. rewrite A. repeat split; auto; lia.
+  - unfold slice_ok. cbn [v_ctx]. split; [exact Fw|]. split; [exact LO|]. split; [|exact Fv]. rewrite LL. cbn. lia.
+  - intros y Hy Ly. unfold compat. cbn [v_ctx v_own]. destruct (v_ctx (get env y)) as [sy|] eqn:Ey; auto.
+    pose proof (hi_view _ _ _ _ I y Hy Ly) as Sy. unfold slice_ok in Sy. rewrite Ey in Sy.
+    destruct Sy as ([Wy _] & _). split; intros E; exfalso; lia.
+Qed.
+
+Lemma reset_step grow h env penv aenv c aenv' :
+  HInv h env penv aenv -> acheck aenv (HReset c) = Some aenv' ->
+  let st' := hstep grow {| hs_heap := h; hs_env := env; hs_obs := [] |} (HReset c) in
+  HInv (hs_heap st') (hs_env st') (ps_env (pstep {| ps_env := penv; ps_obs := [] |} (HReset c))) aenv'.
+Proof.
+  intros I C. pose proof I as [L1 L2 Ha Hv Hc Ho].
+  cbn [acheck] in C. destruct (a_live (aget aenv c) && a_isctx (aget aenv c) && a_own (aget aenv c) && (c <? length aenv)) eqn:G; [|discriminate].
+  injection C as <-. apply andb_true_iff in G as [G Gl]. apply andb_true_iff in G as [G Gown]. apply andb_true_iff in G as [Glive Gctx].
+  apply Nat.ltb_lt in Gl. rewrite L2 in Gl.
+  destruct (Ha c Gl) as [Al An]. rewrite <- Al in Glive. destruct (An Glive) as [Aown Anil]. rewrite <- Aown in Gown.
+  cbn [hstep pstep hs_heap hs_env ps_env].
+  pose proof (reset_facts grow h env penv aenv I) as RF.
+  destruct (ctx_reset grow h) as [h' s']. destruct RF as (P & S & CM). cbn [hs_heap hs_env]. rewrite Gown.
+  pose proof (HInv_kill h env penv aenv c I Gl) as IK.
+  refine (HInv_extend h h' (kill env c) penv (upd aenv c dead_a) _ _ _ IK (preserves_kill _ _ _ _ P) _ _ _ _ _).
+  - reflexivity.
+  - intros _. cbn. split; auto. split; discriminate.
+  - intros _. exact S.
+  - intros y Hy Ly _. rewrite kill_length in Hy. unfold kill in *.
+    destruct (Nat.eq_dec y c) as [->|N]; [rewrite get_upd_same in Ly by auto; discriminate|].
+    rewrite get_upd_other in * by auto. apply CM; auto.
+  - intros _ _. cbn. discriminate.
+Qed.
+
 Lemma logger_step grow h env penv aenv c aenv' :
   HInv h env penv aenv -> acheck aenv (HLogger c) = Some aenv' ->
   let st' := hstep grow {| hs_heap := h; hs_env := env; hs_obs := [] |} (HLogger c) in
@@ -485,15 +537,14 @@ Qed.
 Lemma upd_upd {A} (l : list A) i a b : upd (upd l i a) i b = upd l i b.
 Proof. revert i. induction l as [|x l IH]; intros [|i]; cbn; auto. rewrite IH. reflexivity. Qed.
 
-Lemma appends_inv grow ds : forall h env penv aenv l s,
+Lemma ops_inv grow ops : forall h env penv aenv l s,
   HInv h env penv aenv -> l < length env -> v_live (get env l) = true -> v_own (get env l) = true ->
   v_ctx (get env l) = Some s ->
-  let '(h', s') := appends grow h s ds in
-  HInv h' (upd env l {| v_ctx := Some s'; v_live := true; v_own := true |}) (upd penv l (pget penv l ++ concat ds)) aenv.
+  let '(h', s') := apply_ops grow h s ops in
+  HInv h' (upd env l {| v_ctx := Some s'; v_live := true; v_own := true |}) (upd penv l (fold_left pop ops (pget penv l))) aenv.
 Proof.
-  induction ds as [|d ds IH]; intros h env penv aenv l s I Hl Ll Ol El; cbn [appends concat].
-  - rewrite app_nil_r.
-    assert (E1 : upd env l {| v_ctx := Some s; v_live := true; v_own := true |} = env).
+  induction ops as [|o ops IH]; intros h env penv aenv l s I Hl Ll Ol El; cbn [apply_ops fold_left].
+  - assert (E1 : upd env l {| v_ctx := Some s; v_live := true; v_own := true |} = env).
     { clear -Hl Ll Ol El. unfold get in *. revert l Hl Ll Ol El. induction env as [|x env IH]; intros [|l] Hl Ll Ol El; cbn in *; try lia.
       - destruct x; cbn in *. subst. reflexivity.
       - f_equal. apply IH; auto; lia. }
@@ -501,26 +552,45 @@ Proof.
     { pose proof (hi_len1 _ _ _ _ I) as L1. rewrite <- L1 in Hl. clear -Hl. unfold pget. revert l Hl.
       induction penv as [|x penv IH]; intros [|l] Hl; cbn in *; try lia; auto. f_equal. apply IH. lia. }
     rewrite E1, E2. exact I.
-  - pose proof (owner_append grow h env penv aenv l s d I Hl Ll Ol El) as OA.
-    destruct (append grow h s d) as [[h1 s1] a]. destruct OA as (P & S & CM).
-    pose proof (HInv_replace h h1 env penv aenv l s1 (pget penv l ++ d) I Hl Ll Ol P S CM) as I1.
-    set (env1 := upd env l {| v_ctx := Some s1; v_live := true; v_own := true |}) in *.
-    set (penv1 := upd penv l (pget penv l ++ d)) in *.
-    assert (Hl1 : l < length env1) by (unfold env1; rewrite upd_length; auto).
-    assert (G1 : get env1 l = {| v_ctx := Some s1; v_live := true; v_own := true |}) by (unfold env1; apply get_upd_same; auto).
-    specialize (IH h1 env1 penv1 aenv l s1 I1 Hl1).
-    rewrite G1 in IH. specialize (IH eq_refl eq_refl eq_refl).
-    destruct (appends grow h1 s1 ds) as [h' s'].
-    unfold env1, penv1 in IH. rewrite !upd_upd in IH.
-    assert (Ep : pget (upd penv l (pget penv l ++ d)) l = pget penv l ++ d).
-    { apply pget_upd_same. rewrite (hi_len1 _ _ _ _ I). auto. }
-    rewrite Ep in IH. rewrite <- app_assoc in IH. exact IH.
+  - assert (STEP : forall h1 s1,
+        (forall y sy, y < length env -> y <> l -> v_live (get env y) = true -> v_ctx (get env y) = Some sy -> wf h sy ->
+            view h1 sy = view h sy /\ wf h1 sy) ->
+        slice_ok h1 {| v_ctx := Some s1; v_live := true; v_own := true |} (pop (pget penv l) o) ->
+        (forall y, y < length env -> y <> l -> v_live (get env y) = true ->
+            compat {| v_ctx := Some s1; v_live := true; v_own := true |} (get env y) /\
+            compat (get env y) {| v_ctx := Some s1; v_live := true; v_own := true |}) ->
+        let '(h', s') := apply_ops grow h1 s1 ops in
+        HInv h' (upd env l {| v_ctx := Some s'; v_live := true; v_own := true |})
+             (upd penv l (fold_left pop ops (pop (pget penv l) o))) aenv).
+    { intros h1 s1 P S CM.
+      pose proof (HInv_replace h h1 env penv aenv l s1 (pop (pget penv l) o) I Hl Ll Ol P S CM) as I1.
+      set (env1 := upd env l {| v_ctx := Some s1; v_live := true; v_own := true |}) in *.
+      set (penv1 := upd penv l (pop (pget penv l) o)) in *.
+      assert (Hl1 : l < length env1) by (unfold env1; rewrite upd_length; auto).
+      assert (G1 : get env1 l = {| v_ctx := Some s1; v_live := true; v_own := true |}) by (unfold env1; apply get_upd_same; auto).
+      specialize (IH h1 env1 penv1 aenv l s1 I1 Hl1).
+      rewrite G1 in IH. specialize (IH eq_refl eq_refl eq_refl).
+      destruct (apply_ops grow h1 s1 ops) as [h' s'].
+      unfold env1, penv1 in IH. rewrite !upd_upd in IH.
+      assert (Ep : pget (upd penv l (pop (pget penv l) o)) l = pop (pget penv l) o).
+      { apply pget_upd_same. rewrite (hi_len1 _ _ _ _ I). auto. }
+      rewrite Ep in IH. exact IH. }
+    destruct o as [d|].
+    + pose proof (owner_append grow h env penv aenv l s d I Hl Ll Ol El) as OA.
+      destruct (append grow h s d) as [[h1 s1] a]. destruct OA as (P & S & CM).
+      apply (STEP h1 s1 P S CM).
+    + pose proof (reset_facts grow h env penv aenv I) as RF.
+      destruct (ctx_reset grow h) as [h1 s1]. destruct RF as (P & S & CM).
+      apply (STEP h1 s1).
+      * intros y sy Hy _ Ly Ey Wy. apply (P y sy Hy Ly Ey Wy).
+      * exact S.
+      * intros y Hy _ Ly. apply CM; auto.
 Qed.
 
-Lemma update_step grow h env penv aenv l ds aenv' :
-  HInv h env penv aenv -> acheck aenv (HUpdate l ds) = Some aenv' ->
-  let st' := hstep grow {| hs_heap := h; hs_env := env; hs_obs := [] |} (HUpdate l ds) in
-  HInv (hs_heap st') (hs_env st') (ps_env (pstep {| ps_env := penv; ps_obs := [] |} (HUpdate l ds))) aenv'.
+Lemma update_step grow h env penv aenv l ops aenv' :
+  HInv h env penv aenv -> acheck aenv (HUpdate l ops) = Some aenv' ->
+  let st' := hstep grow {| hs_heap := h; hs_env := env; hs_obs := [] |} (HUpdate l ops) in
+  HInv (hs_heap st') (hs_env st') (ps_env (pstep {| ps_env := penv; ps_obs := [] |} (HUpdate l ops))) aenv'.
 Proof.
   intros I C. pose proof I as [L1 L2 Ha Hv Hc Ho].
   cbn [acheck] in C. destruct (a_live (aget aenv l) && negb (a_isctx (aget aenv l)) && a_own (aget aenv l) && (l <? length aenv)) eqn:G; [|discriminate].
@@ -529,8 +599,8 @@ Proof.
   destruct (Ha l Gl) as [Al An]. rewrite <- Al in Glive. destruct (An Glive) as [Aown Anil]. rewrite <- Aown in Gown.
   pose proof (Ho l Gl Glive Gown) as NN. destruct (v_ctx (get env l)) as [s|] eqn:El; [|congruence].
   cbn [hstep pstep hs_heap hs_env ps_env]. rewrite El.
-  pose proof (appends_inv grow ds h env penv aenv l s I Gl Glive Gown El) as A.
-  destruct (appends grow h s ds) as [h' s']. cbn [hs_heap hs_env]. rewrite Gown. exact A.
+  pose proof (ops_inv grow ops h env penv aenv l s I Gl Glive Gown El) as A.
+  destruct (apply_ops grow h s ops) as [h' s']. cbn [hs_heap hs_env]. rewrite Gown. exact A.
 Qed.
 
 (* ---- one statement: invariant + observations ---- *)
@@ -551,8 +621,8 @@ Proof.
   - split; [exact (copy_step grow h env penv aenv l aenv' I C)|reflexivity].
   - pose proof (output_step grow h env penv aenv l aenv' I C) as R. cbn [hstep pstep hs_heap hs_env ps_env ps_obs hs_obs] in *.
     destruct (v_ctx (get env l)) as [s|]; split; try exact R; reflexivity.
-  - pose proof (update_step grow h env penv aenv l ds aenv' I C) as R. cbn [hstep pstep hs_heap hs_env ps_env ps_obs hs_obs] in *.
-    destruct (v_ctx (get env l)) as [s|]; [destruct (appends grow h s ds) as [h' s']|]; split; try exact R; reflexivity.
+  - pose proof (update_step grow h env penv aenv l ops aenv' I C) as R. cbn [hstep pstep hs_heap hs_env ps_env ps_obs hs_obs] in *.
+    destruct (v_ctx (get env l)) as [s|]; [destruct (apply_ops grow h s ops) as [h' s']|]; split; try exact R; reflexivity.
   - (* Emit *)
     cbn [acheck] in C. destruct (a_live (aget aenv l) && negb (a_isctx (aget aenv l)) && (l <? length aenv)) eqn:G; [|discriminate].
     injection C as <-. apply andb_true_iff in G as [G Gl]. apply andb_true_iff in G as [Glive Gctx].
@@ -560,6 +630,8 @@ Proof.
     destruct (Ha l Gl) as [Al An]. rewrite <- Al in Glive.
     cbn [hstep pstep hs_heap hs_env ps_env ps_obs hs_obs]. split; [exact I|]. f_equal. f_equal.
     pose proof (Hv l Gl Glive) as S. unfold slice_ok, hview in *. destruct (v_ctx (get env l)); [destruct S as (_ & _ & _ & V); exact V|auto].
+  - pose proof (reset_step grow h env penv aenv c aenv' I C) as R. cbn [hstep pstep hs_heap hs_env ps_env ps_obs hs_obs] in *.
+    destruct (ctx_reset grow h) as [h' s']. split; [exact R|reflexivity].
 Qed.
 
 (* THE theorem: for every program of the property's language and every growth
